@@ -62,14 +62,17 @@ func tailPass(r *ev.Run, counters map[string]int64) {
 			if err != nil {
 				ev.Fatal("tail: %v", err)
 			}
+			// two polls: the second one reads [newest delivered line + 1 ns, now) — a second window of the same session
 			var text string
-			select {
-			case m, ok := <-watcher.GetRes():
-				if ok {
-					text = m.Str
+			for poll := 0; poll < 2; poll++ {
+				select {
+				case m, ok := <-watcher.GetRes():
+					if ok {
+						text += m.Str + "\n"
+					}
+				case <-time.After(20 * time.Second):
+					ev.Fatal("tail: no message within 20 s")
 				}
-			case <-time.After(20 * time.Second):
-				ev.Fatal("tail: no message within 20 s")
 			}
 			watcher.Close()
 			cancel()
